@@ -312,14 +312,13 @@ def matchRaw (mf : MatchFilter) (ci : Bool) (v : CVal) : Bool :=
     | _ => false
 
 /-- `fopOnString` without regexp: `eq` = Equals, else NotEquals; a BACK-FILL record (the event does not have the
-column) satisfies exactly `!=`, like the empty record of a block without the column (patch c02-1); other non-string
-records give `false` (filterOpOnDataType) -/
+column) satisfies exactly `!=`, like the empty record of a block without the column (patch c02-1); any other record that
+is not a string (number, boolean) is "not equal" to the string as well (patch c02-5; before it: no match for `=` and `!=`) -/
 def exprRaw (eq ci : Bool) (val : Bytes) (v : CVal) : Bool :=
   match v with
   | .str s =>
     if eq then s.length == val.length && bytesEq ci s val else !bytesEq ci s val
-  | .backfill => !eq
-  | _ => false
+  | _ => !eq
 
 /-- `filterOpOnDataType` for a boolean literal on a stored record — as repaired by patch c03-E: a record of another
 type (string, number) does not match, for `=` and for `!=` (as for string literals); and by patch c02-1: a BACK-FILL
